@@ -725,6 +725,11 @@ func commonAncestor(a, b *block) *block {
 // leaves a hole in its pending list when a re-injected transaction is rejected".
 const FPReorgGap = "C19/pending-gap-after-reorg"
 
+// FPTrackerLow is the fingerprint of the confirmed finding "a reset run that re-injects into a full
+// pool evicts a not-yet-demoted pending transaction and removeTx lowers the account's virtual
+// nonce below its state nonce" (pool.Nonce is wrong until the next reset run rebuilds the tracker).
+const FPTrackerLow = "C19/nonce-tracker-below-state-nonce"
+
 // reorgGapHazard reports whether switching the head from cur to a branch that forks at anc, carries
 // the transactions `included` and ends in state st / gas limit gl can run into FPReorgGap: some
 // account's nonce goes down while the pool holds pending transactions of it, and it is not certain
